@@ -63,6 +63,7 @@ FIELD_INFO = {
     "cdep":  {"att": "cdep", "name": "cdep", "keys": ["cdep"], "type": "int"},
     "nkind": {"att": "nkind", "name": "nkind", "keys": ["nkind"], "type": "str"},
     "tt":    {"att": "tt", "name": "tt", "keys": ["tt"], "type": "int"},
+    "hp":    {"att": "hp", "name": "hp", "keys": ["hp"], "type": "int"},
     "ratio": {"att": "ratio", "name": "ratio", "keys": ["ratio"], "type": "int"},
     "dbl":   {"att": "dbl", "name": "dbl", "keys": ["dbl"], "type": "posint"},
     "tb":    {"att": "tb", "name": "tb", "keys": ["tb"], "type": "int"},
@@ -120,6 +121,9 @@ def source(plan):
     if "total" in fs and plan.get("tt"):
         # a property that depends on a property: a change of req / pos has to reach it through total
         L += ["    @property", "    @Field(dependencies=['total'])", "    def tt(self) -> int:", "        return self.total + 1000"]
+    if "hid" in fs and "pos" in fs and plan["base"] == "schema" and plan.get("hp"):
+        # depends on a field kept out of the key view AND on an ordinary one
+        L += ["    @property", "    @Field(dependencies=['hid', 'pos'])", "    def hp(self) -> int:", "        return self.hid + self.pos + 1000"]
     if "pos" in fs and plan.get("ratio"):
         # a getter that cannot be computed for every valid value of its field (pos = 0)
         L += ["    @property", "    @Field(dependencies=['pos'])", "    def ratio(self) -> int:", "        return 100 // self.pos"]
@@ -149,6 +153,7 @@ def source(plan):
         L += ["    _w = 0", "    @property", "    def w(self) -> int:", "        return self._w",
               "    @w.setter", "    def w(self, v: int = Field(ge=0, required=False)):",
               "        hook_point('set_w')", "        self._w = v",
+              "    @w.deleter", "    def w(self):", "        self._w = 0",
               "    @property", "    @Field(dependencies=w)", "    def w2(self) -> int:", "        return self._w * 2"]
     if plan.get("inherit") and L[-1] == "    pass" and len(fs) > 0:
         pass
@@ -218,12 +223,13 @@ def generate(rng, tier):
     plan["tt"] = "total" in fs and rng.random() < 0.5
     plan["diamond"] = "total" in fs and rng.random() < 0.4
     plan["ratio"] = "pos" in fs and base == "schema" and rng.random() < 0.35
+    plan["hp"] = "hid" in fs and "pos" in fs and base == "schema" and rng.random() < 0.5
     plan["dbl"] = base == "schema" and rng.random() < 0.3
     # no field without a default (and no immutable one): clear() and popitem() can go all the way
     plan["noreq"] = "fin" not in fs and rng.random() < 0.35
     if "mreq" in fs:
         plan["mreq_nodefault"] = rng.random() < 0.4
-        plan["mode"] = rng.choice([None, "class", "runtime"]) if base == "schema" else rng.choice([None, "class"])
+        plan["mode"] = rng.choice([None, "class", "runtime"])
     o = plan["options"]
     r = rng.random()
     if r < 0.6:
@@ -370,7 +376,7 @@ def read_attr(inst, att):
     except AttributeError:
         return _MISSING
     except Exception:  # noqa  a property body computing over already-broken data; the broken field itself is reported
-        if att in ("total", "w", "w2", "hsum", "nkind", "tt", "tb", "td", "ratio", "dbl", "cdep"):
+        if att in ("total", "w", "w2", "hsum", "nkind", "tt", "tb", "td", "ratio", "dbl", "cdep", "hp"):
             return _MISSING
         raise
 
@@ -384,7 +390,7 @@ class View:
         self.extra = {}
         is_schema = plan["base"] == "schema"
         names = {}
-        all_kinds = list(plan["fields"]) + (["w2"] if "w" in plan["fields"] else []) + (["hsum"] if plan.get("hsum") else []) + (["nkind"] if "num" in plan["fields"] else []) + (["tt"] if plan.get("tt") else []) + (["tb", "td"] if plan.get("diamond") else []) + (["cdep"] if "camF" in plan["fields"] else []) + (["ratio"] if plan.get("ratio") else []) + (["dbl"] if plan.get("dbl") else [])
+        all_kinds = list(plan["fields"]) + (["w2"] if "w" in plan["fields"] else []) + (["hsum"] if plan.get("hsum") else []) + (["nkind"] if "num" in plan["fields"] else []) + (["tt"] if plan.get("tt") else []) + (["tb", "td"] if plan.get("diamond") else []) + (["cdep"] if "camF" in plan["fields"] else []) + (["hp"] if plan.get("hp") else []) + (["ratio"] if plan.get("ratio") else []) + (["dbl"] if plan.get("dbl") else [])
         for k in all_kinds:
             names[FIELD_INFO[k]["name"]] = k
         if is_schema:
@@ -408,13 +414,13 @@ class View:
         return kernel.jdump([kernel.canon(self.keys), kernel.canon(self.extra), kernel.canon(priv)])
 
 
-def check_invariants(plan, inst, initial, res, opname, field, current=True):
+def check_invariants(plan, inst, initial, res, opname, field, current=True, touched=()):
     """Returns list of (invariant id, field kind, text)."""
     out = []
     v = View(plan, inst)
     fs = plan["fields"]
     is_schema = plan["base"] == "schema"
-    props = {"total", "w", "w2", "hsum", "nkind", "tt", "tb", "td", "ratio", "dbl", "cdep"}
+    props = {"total", "w", "w2", "hsum", "nkind", "tt", "tb", "td", "ratio", "dbl", "cdep", "hp"}
     # I1 conformance of every present field, in both views
     for k, val in v.keys.items():
         if not conforms(k, val):
@@ -437,7 +443,7 @@ def check_invariants(plan, inst, initial, res, opname, field, current=True):
             out.append(("I3", "class", "instance of an immutable class changed"))
     # I4 key view and attribute view agree
     if is_schema:
-        for k in list(fs) + (["w2"] if "w" in fs else []) + (["hsum"] if plan.get("hsum") else []) + (["nkind"] if "num" in fs else []) + (["tt"] if plan.get("tt") else []) + (["tb", "td"] if plan.get("diamond") else []) + (["cdep"] if "camF" in plan["fields"] else []) + (["ratio"] if plan.get("ratio") else []) + (["dbl"] if plan.get("dbl") else []):
+        for k in list(fs) + (["w2"] if "w" in fs else []) + (["hsum"] if plan.get("hsum") else []) + (["nkind"] if "num" in fs else []) + (["tt"] if plan.get("tt") else []) + (["tb", "td"] if plan.get("diamond") else []) + (["cdep"] if "camF" in plan["fields"] else []) + (["hp"] if plan.get("hp") else []) + (["ratio"] if plan.get("ratio") else []) + (["dbl"] if plan.get("dbl") else []):
             if k == "hid":
                 if "hid" in v.keys:
                     out.append(("I4", k, "no_output field present in the key view"))
@@ -463,6 +469,13 @@ def check_invariants(plan, inst, initial, res, opname, field, current=True):
     if "camF" in fs and is_schema and "camF" in v.keys and conforms("camF", v.keys["camF"]):
         if "cdep" in v.keys and v.keys["cdep"] != v.keys["camF"] + 7:
             out.append(("I5", "cdep", f"cdep={v.keys['cdep']!r} but camF+7={v.keys['camF'] + 7!r}"))
+    if plan.get("hp") and is_schema and "hid" in v.attrs and conforms("hid", v.attrs["hid"]) and "pos" in v.keys and conforms("pos", v.keys["pos"]):
+        want = v.attrs["hid"] + v.keys["pos"] + 1000
+        assigning = opname in ("setattr", "setitem", "update_m", "update_kw", "ior", "update_inst", "ior_inst", "init")
+        # (its key may have been removed on purpose - pop / popitem / del of the property itself -: absence is judged right
+        # after an assignment only)
+        if ("hp" in v.keys and v.keys["hp"] != want) or ("hp" not in v.keys and assigning and current and (opname == "init" or {"pos", "hid"} & set(touched))):
+            out.append(("I5", "hp", f"hp={v.keys.get('hp', '<absent>')!r} but hid+pos+1000={want!r} (both of its dependencies are there)"))
     if plan.get("ratio") and is_schema and "pos" in v.keys and conforms("pos", v.keys["pos"]):
         if v.keys["pos"] == 0 and "ratio" in v.keys:
             out.append(("I5", "ratio", f"ratio={v.keys['ratio']!r} is still there although it cannot be computed for pos=0 (an instance initialized with pos=0 has no ratio)"))
@@ -618,7 +631,8 @@ def execute(plan):
                             f"op #{n} {op} raised {type(raised).__name__} but changed the data: {before[-1][:150]} -> {after[:150]}")
         # the other live instances (originals of copies) keep their own invariants as well
         for idx, x in enumerate(live):
-            viol, view = check_invariants(plan, x, initial, res, opname, f, current=x is live[-1])
+            touched = {f} if f else {it[2] for it in op.get("items", []) if it[2]} | ({"pos", "hid"} & set(op.get("other") or {}))
+            viol, view = check_invariants(plan, x, initial, res, opname, f, current=x is live[-1], touched=touched if raised is None else ())
             for inv, fk, text in viol:
                 who = "" if x is live[-1] else " (on an earlier instance a copy was taken from)"
                 res.violate(f"C07|{base}|{opname}|{inv}|{fk}", f"after op #{n} {op}{who}: {text}")
